@@ -91,10 +91,17 @@ def run_case(case):
           "input_cmp_changing": False}
     pmask = (1 << pins) - 1
 
+    from vmon.simkit import reset_plan, drive_reset
+    resets = reset_plan(case["cycles"])
+
     async def bench(ctx):
         for c in range(case["cycles"]):
             mon.cycle = c
             inp = drv.next()
+            drive_reset(ctx, c in resets)
+            if c in resets:
+                inp = drv.idle()          # warm reset: idle bus cycle, the transaction in progress is abandoned
+                drv.restart()
             ctx.set(bus.addr, inp["addr"])
             ctx.set(bus.r_stb, inp["r_stb"])
             ctx.set(bus.w_stb, inp["w_stb"])
@@ -157,6 +164,12 @@ def run_case(case):
                         mon.count("setclr_applied")
             st["mode"], st["out"] = mode, out
             model.advance(inp, vals)
+            if c in resets:
+                # Mode and Output return to their initial values; the input synchroniser is not reset (its
+                # flip-flops are declared reset-less), so the pin history carries on
+                st["mode"], st["out"] = 0, 0
+                model.reset()
+                mon.count("warm_resets")
             await ctx.tick()
 
     simulate(Top({"gpio": dut}), bench, mon)
